@@ -156,6 +156,11 @@ def d3_set_run_key(ctx, repo):
 
 def run(ctx):
     rm = REModel(ctx.repo)
+    # closing a run (or toggling rewinding, ...) is an implicit checkpoint of the ENGINE: it refreshes the counter snapshot of every run that
+    # stays open - otherwise a later rewind rolls an independent run back over events it has already emitted (seeds C14-b, C14-c)
+    from . import c04
+
+    q.relabelled(ctx, "C04.D2", "C14.D3", c04.d2_implicit_checkpoints, rm)
     ctx.explanation = (
         "Decided: D1 every use of the map of open runs in RunEngine is keyed by the run key of the message being executed (reaching "
         "definitions of the key expression) or is a loop over every run in a function of the frozen broadcast table; D2 open_run "
